@@ -330,6 +330,10 @@ func updateDashboard(id string, dName string, dashboardDetails map[string]interf
 		return errors.New("dashboard not found")
 	}
 
+	if item.Type != "dashboard" {
+		return errors.New("updateDashboard: specified ID is not a dashboard")
+	}
+
 	currentParentID := item.ParentID
 	var newParentID string
 
